@@ -268,4 +268,4 @@ def run(ctx):
                 ev.count(k)
         return f
 
-    ctx.campaign("main", triples(), oracle, max_examples=ctx.n(500, 96000))
+    ctx.campaign("main", triples(), oracle, max_examples=ctx.n(900, 96000))
